@@ -244,6 +244,20 @@ impl<T: GseDecapMemory, C: CrcCalculator, MHEM: MandatoryHeaderExtensionManager>
         self.last_label = None;
     }
 
+    /// Give a storage back to the memory when a packet is rejected.
+    /// If the memory can not take it, the storage is handed to the caller inside the error.
+    fn give_back_storage(
+        &mut self,
+        storage: Box<[u8]>,
+        error: DecapError,
+        pkt_len: usize,
+    ) -> (DecapError, usize) {
+        match self.memory.provision_storage(storage) {
+            Ok(()) => (error, pkt_len),
+            Err(err) => (DecapError::ErrorMemory(err), pkt_len),
+        }
+    }
+
     /// GSE decapsulation of the payload from a buffer
     ///
     /// The function decap reads the buffer to extract a packet.
@@ -428,8 +442,7 @@ impl<T: GseDecapMemory, C: CrcCalculator, MHEM: MandatoryHeaderExtensionManager>
         // check buffer size
         if pdu_buffer_len + label_len + header_ext_len + PROTOCOL_LEN < gse_len {
             self.last_label = None;
-            self.memory.provision_storage(pdu_buffer).unwrap();
-            return Err((DecapError::ErrorSizePduBuffer, pkt_len));
+            return Err(self.give_back_storage(pdu_buffer, DecapError::ErrorSizePduBuffer, pkt_len));
         }
         let calculed_pdu_len = gse_len - label_len - header_ext_len - PROTOCOL_LEN;
 
@@ -683,8 +696,7 @@ impl<T: GseDecapMemory, C: CrcCalculator, MHEM: MandatoryHeaderExtensionManager>
         let pdu_buffer_len = pdu_buffer.len();
         if pdu_buffer_len < calculed_pdu_len {
             self.last_label = None;
-            self.memory.provision_storage(pdu_buffer).unwrap();
-            return Err((DecapError::ErrorSizePduBuffer, pkt_len));
+            return Err(self.give_back_storage(pdu_buffer, DecapError::ErrorSizePduBuffer, pkt_len));
         }
 
         // read pdu
@@ -734,8 +746,7 @@ impl<T: GseDecapMemory, C: CrcCalculator, MHEM: MandatoryHeaderExtensionManager>
         let pdu_buffer_len = pdu_buffer.len();
 
         if pdu_buffer_len < calculed_pdu_len {
-            self.memory.provision_storage(pdu).unwrap();
-            return Err((DecapError::ErrorSizePduBuffer, pkt_len));
+            return Err(self.give_back_storage(pdu, DecapError::ErrorSizePduBuffer, pkt_len));
         }
         pdu_buffer[..calculed_pdu_len].copy_from_slice(&buffer[offset..offset + calculed_pdu_len]);
 
@@ -785,8 +796,7 @@ impl<T: GseDecapMemory, C: CrcCalculator, MHEM: MandatoryHeaderExtensionManager>
         let pdu_buffer_len = pdu_buffer.len();
 
         if pdu_buffer_len < calculed_pdu_len {
-            self.memory.provision_storage(pdu).unwrap();
-            return Err((DecapError::ErrorSizePduBuffer, pkt_len));
+            return Err(self.give_back_storage(pdu, DecapError::ErrorSizePduBuffer, pkt_len));
         }
 
         pdu_buffer[..calculed_pdu_len].copy_from_slice(&buffer[offset..offset + calculed_pdu_len]);
@@ -814,8 +824,7 @@ impl<T: GseDecapMemory, C: CrcCalculator, MHEM: MandatoryHeaderExtensionManager>
 
         let total_len_received = (pdu_len + PROTOCOL_LEN + first_label_len) as u16;
         if decap_context.total_len != total_len_received {
-            self.memory.provision_storage(pdu).unwrap();
-            return Err((DecapError::ErrorTotalLength, pkt_len));
+            return Err(self.give_back_storage(pdu, DecapError::ErrorTotalLength, pkt_len));
         }
 
         let calculted_crc = self.crc_calculator.calculate_crc32(
@@ -826,8 +835,7 @@ impl<T: GseDecapMemory, C: CrcCalculator, MHEM: MandatoryHeaderExtensionManager>
         );
 
         if calculted_crc != received_crc {
-            self.memory.provision_storage(pdu).unwrap();
-            return Err((DecapError::ErrorCrc, pkt_len));
+            return Err(self.give_back_storage(pdu, DecapError::ErrorCrc, pkt_len));
         }
 
         Ok((DecapStatus::CompletedPkt(pdu, metadata), pkt_len))
